@@ -127,6 +127,8 @@ func runC06(c *an.Ctx) {
 				sh := t.ErrShape(errResult(r))
 				fs := ff.AtInstr(r)
 				switch {
+				case sh == "nil" && ff.AtRefined(r.Block()).Has(an.EQ(t.Of(commit), "nil")):
+					c.Ok("C06.a", "returns-commit-result", "a flush succeeds exactly when its Commit succeeded", flush, r, "nil after Commit() == nil", fs)
 				case sh == "nil":
 					c.Check(fs.Has(an.EQ("len(p2)", "0")), "C06.a", "nil-only-when-empty", "apart from Commit's own result a flush returns nil only for an empty batch", flush, r, "", fs)
 				case sh == "prop("+t.Of(commit)+")":
